@@ -22,7 +22,7 @@ CHECKS = {
     "C09": {"level": "exploration", "stages": [("e3", "C09", 60000, 4000000, {}), ("e1", "C09", 20000, 600000, {})]},
     "C10": {"level": "exploration", "stages": [("e1", "C10", 20000, 700000, {})]},
     "C13": {"level": "exploration", "stages": [("e1c13", "C13", 20000, 700000, {}), ("e6", "C13", 0, 0, {"runs_factor": 1})]},
-    "C15": {"level": "exploration", "stages": [("e4", "C15", 0, 0, {}), ("e1", "C15", 30000, 1000000, {})]},
+    "C15": {"level": "exploration", "stages": [("e4", "C15", 0, 0, {}), ("e4", "C15", 0, 0, {"wide": 1, "n_quick": 32, "n_thorough": 600}), ("e1", "C15", 30000, 1000000, {})]},
     "C16": {"level": "exploration", "stages": [("e1", "C16", 30000, 1000000, {}), ("e3", "C16", 20000, 600000, {})]},
     "C17": {"level": "exploration", "stages": [("e1", "C17", 30000, 1000000, {}), ("e2", "C17", 8000, 400000, {})]},
     "C11": {"level": "exploration", "stages": [("e2", "C11", 20000, 1500000, {})]},
@@ -226,6 +226,8 @@ def main(argv=None):
         runs = args.runs if args.runs else (rq if tier == "quick" else rt)
         if not runs:
             runs = fmod.n_runs(tier)
+            if params.get("n_quick"):
+                runs = params["n_quick"] if tier == "quick" else params["n_thorough"]
             if params.get("runs_factor"):
                 runs = len(fmod.points(tier)) * params["runs_factor"] * (1 if tier == "quick" else 4)
         if hasattr(fmod, "prepare"):
